@@ -232,6 +232,9 @@ func (c *Ctx) Finish(verifDir string, seed int64, t0 time.Time) int {
 		fmt.Printf("INFRA-FAILURE property=%s cannot write evidence: %v\n", c.Prop, err)
 		return 2
 	}
+	if ob, err := json.MarshalIndent(map[string]interface{}{"property_id": c.Prop, "obligations": c.Obls}, "", " "); err == nil {
+		_ = os.WriteFile(filepath.Join(verifDir, "evidence", c.Prop+".obligations.json"), ob, 0o644)
+	}
 	fmt.Printf("property=%s tier=%s obligations=%d discharged=%d violations=%d known=%d wall=%.1fs\n", c.Prop, c.Tier, len(c.Obls), discharged, len(viol), len(knownHit), time.Since(t0).Seconds())
 	if len(viol) == 0 {
 		os.Remove(violPath)
